@@ -20,7 +20,7 @@ RULE = ('seeded generator: random apertures 4..22 per side and random partitions
 ASSUMPTIONS = ['segments of one plane are pairwise disjoint (a partition)']
 PLAN = {'quick': {'gen': 8}, 'thorough': {'gen': 16, 'tests': 1}}
 REQUIRED_BUCKETS = ['k=1', 'k=2', 'k=3-8', 'bbox-overlap', 'style:stripes', 'style:blobs', 'style:interleaved',
-                    'chain:1', 'chain:2', 'chain:2-segmented', 'propagated', 'padded']
+                    'chain:1', 'chain:2', 'chain:2-segmented', 'propagated', 'padded', 'tilt-chain', 'segment-tilts']
 REQUIRED_ANCHORS = ['probe:propagate_dft', 'anchor:Plane.multiply', 'anchor:slice_offset', 'anchor:boundary_slice',
                     'anchor:field.reduce', 'anchor:field._merge']
 REQUIRED_ORACLES = ['seg=mono:field', 'seg=mono:intensity', 'seg=mono:propagated', 'coherent-sum', 'pad=embed',
@@ -167,6 +167,58 @@ def workload(ctx, lentil):
         ctx.close('coherent-sum', inten, coh, TOL, 'coherent|image',
                   'image intensity is not |coherent sum of the per-segment fields|^2 (incoherent merge?)', desc,
                   scale=max(float(coh.max()) if coh.size else 0, 1e-300))
+
+        # chains that carry tilt metadata: tilted wavefront and/or Tilt planes around the (segmented | monolithic) pupil
+        if i % 2 == 1:
+            ctx.bucket('tilt-chain')
+            dus = np.broadcast_to(np.asarray(du, float), (2,))
+            Sx = (oshape[0] * os_, oshape[1] * os_)
+            def ang():
+                sp = rng.uniform(-0.15, 0.15, size=2) * np.array(Sx)
+                return float(sp[0] * dus[0] / (z * os_)), float(-sp[1] * dus[1] / (z * os_))
+            t0, t1, t2 = ang(), ang(), ang()
+            how = int(rng.integers(0, 3))
+            def chain(pupil):
+                w = lentil.Wavefront(wl, tilt=list(t0)) if how != 1 else lentil.Wavefront(wl)
+                if how == 1:
+                    w = w * lentil.Pupil(amplitude=np.ones(shape), pixelscale=dx, focal_length=z) * lentil.Tilt(x=t0[0], y=t0[1])
+                w = w * pupil
+                w = w * lentil.Tilt(x=t1[0], y=t1[1])
+                if how == 2:
+                    w = w * lentil.Tilt(x=t2[0], y=t2[1])
+                return w
+            try:
+                otm = lentil.propagate_dft(chain(mono), du, shape=oshape, oversample=os_)
+                ots = lentil.propagate_dft(chain(segd), du, shape=oshape, oversample=os_)
+                _cmp(ctx, 'seg=mono:propagated', 'tilt-chain', 'segmented and monolithic description differ in a chain carrying tilt metadata',
+                     otm, ots, dict(desc, how=how), scale_tol=tol)
+            except Exception as e:
+                ctx.check(False, 'seg=mono:propagated', f'tilt-chain|raises={type(e).__name__}', str(e), desc)
+        # per-segment fitted tilts with a small propagation window: segment images land on different, chain-overlapping
+        # windows and must still add coherently
+        if i % 3 == 0 and k >= 2:
+            ctx.bucket('segment-tilts')
+            dus = np.broadcast_to(np.asarray(du, float), (2,))
+            dxs = np.broadcast_to(np.asarray(dx, float), (2,))
+            Sx = (oshape[0] * os_, oshape[1] * os_)
+            rr = (np.arange(shape[0]) - shape[0] // 2)[:, None]
+            cc = (np.arange(shape[1]) - shape[1] // 2)[None, :]
+            opdt = opd.copy()
+            for sg in segs:
+                sp = rng.uniform(-0.3, 0.3, size=2) * np.array(Sx)
+                opdt = opdt + (sp[0] * dus[0] / (z * os_) * rr * dxs[0] + sp[1] * dus[1] / (z * os_) * cc * dxs[1]) * sg
+            try:
+                pf = lentil.Pupil(amplitude=amp, opd=opdt, mask=segs.astype(float), pixelscale=dx, focal_length=z).fit_tilt()
+                psm = (max(1, oshape[0] // 3), max(1, oshape[1] // 3))
+                oft = lentil.propagate_dft(lentil.Wavefront(wl) * pf, du, shape=oshape, prop_shape=psm, oversample=os_)
+                with probe.quiet():
+                    inten = oft.intensity
+                    coh = np.abs(rm.render([(f.data, f.offset) for f in oft.data if f.data.size], oft.shape)) ** 2
+                ctx.close('coherent-sum', inten, coh, TOL, 'coherent|segment-tilts',
+                          'segment images on different (overlapping) windows are not added coherently', desc,
+                          scale=max(float(coh.max()) if coh.size else 0, 1e-300))
+            except Exception as e:
+                ctx.check(False, 'coherent-sum', f'segment-tilts|raises={type(e).__name__}', str(e), desc)
 
         # same optics zero-padded into a larger array, origin kept
         if i % 2 == 0:
